@@ -319,6 +319,11 @@ def tree_variants(line, rng, prop):
                 enc = enc.replace(b"~", b"~0")
                 q = list(parts); q[pi] = "x" + (b"".join(b"/" + x for x in toks_[:j]) + b"/" + enc + b"".join(b"/" + x for x in toks_[j + 1:])).hex()
                 out.append(" ".join(q))
+        # an EMPTY token in the middle (`/a//b`): where its error's (empty) label sits, and what it names, are their own cases
+        seps = [i for i, c in enumerate(pb) if c == 0x2f]
+        for i in sorted({seps[0], seps[-1], seps[len(seps) // 2]}) if seps else []:
+            q = list(parts); q[pi] = "x" + (pb[:i] + b"/" + pb[i:]).hex(); out.append(" ".join(q))
+            q = list(parts); q[pi] = "x" + (pb[:i] + b"//" + pb[i:]).hex(); out.append(" ".join(q))
         # a long remainder to materialise / to fail on: > 64 tokens behind the original pointer
         q = list(parts); q[pi] = "x" + (pb + b"/a" * rng.choice([64, 65, 70, 129, 130]) + b"/b").hex(); out.append(" ".join(q))
         # three-digit indices (above 255) and a 20-digit overflow in the last position
@@ -457,6 +462,23 @@ def ascii_sweep(lines):
                     out.append(f"{op} {_hex(v)}")
     return sorted(set(out))
 
+NOTABLE = ["\ufeff", "\u200b", "\u00a0", "\u2028", "\u0085", "\u1680", "\u3000", "\u200e", "\u200f", "\u0301", "\ufffd", "\ufdd0", "\ufdef", "\ufffe", "\uffff",
+           "\ue000", "\uf8ff", "\ud7ff", "\U00010000", "\U0001fffe", "\U0010ffff", "\U000e0001", "\u2044", "\u2215", "\uff0f", "\uff5e", "\u02dc", "\u0338"]
+def unicode_sweep(lines):
+    """code points that text-handling code singles out or borrows as sentinels (BOM, zero-width and exotic spaces, line separators, combining
+    marks, noncharacters such as U+FDD0 / U+FFFE, private use, the last scalar values, look-alikes of `/` and `~`), in front of, behind and inside
+    a few base strings, for the operations that take a string"""
+    ops = {l.split(" ", 1)[0] for l in lines}
+    out = []
+    bases = [b"", b"/", b"/a", b"/~0", b"/~1x", b"~", b"a/b", b"/a~", b"a~0", b"0", b"/a/b~0c"]
+    for op in sorted(ops & (set(STR_OPS) | {"index_str"})):
+        for b in bases:
+            for ch in NOTABLE:
+                c = ch.encode("utf-8")
+                for v in (c + b, b + c, b[:1] + c + b[1:], b[:2] + c + b[2:]):
+                    out.append(f"{op} {_hex(v)}")
+    return sorted(set(out))
+
 def token_count_sweep(lines, rng):
     """pointers with EXACTLY c tokens for every c within 2 of a power of two up to 512 and of every mined number (inline tables,
     depth caps, `zip` against a fixed array: off by one at exactly one count), for the operations that take a pointer; the
@@ -549,6 +571,13 @@ def augment(prop, lines, seed, budget=40000, mined=None):
             out.append(f"get {big} {r}")
     out.extend(token_count_sweep(lines, rng))
     out.extend(ascii_sweep(lines))
+    out.extend(unicode_sweep(lines))
+    # past 2^16 bytes / characters: run-time width and precision arguments of `format_args!` must fit in `u16`, offsets kept in 16 bits wrap
+    for op in sorted({l.split(" ", 1)[0] for l in lines} & set(STR_OPS)):
+        for n in (65534, 65535, 65536, 65537, 70000):
+            body = b"a" * n
+            for v in (b"/" + body + b"~x", b"/" + body + b"/~", b"/" + body, b"/x/" + body + b"~", "é".encode() * (n // 2) + b"~"):
+                out.append(f"{op} {_hex(v)}")
     if any(l.startswith("get ") for l in lines):
         # the far end of the index type in every range form (an `i + 1` on the index overflows only there)
         M = 2 ** 64 - 1
